@@ -54,8 +54,9 @@ pub struct Interpreter<TStdlib: Stdlib, TStdIn: Input, TStdOut: Printer, TLpt1: 
     register_stack: RegisterStack,
 
     /// Holds addresses to jump back to,
-    /// together with the number of register frames and of parked values at the time of the call
-    return_address_stack: Vec<(usize, usize, usize)>,
+    /// together with the number of register frames, of parked values
+    /// and of pending GOSUB addresses at the time of the call
+    return_address_stack: Vec<(usize, usize, usize, usize)>,
 
     /// Holds addresses to RETURN to after a GOSUB
     go_sub_address_stack: Vec<usize>,
@@ -448,22 +449,25 @@ impl<TStdlib: Stdlib, TStdIn: Input, TStdOut: Printer, TLpt1: Printer>
                     *address,
                     self.register_stack.len(),
                     self.value_stack.len(),
+                    self.go_sub_address_stack.len(),
                 ));
             }
             Instruction::PopRet => {
-                let (address, register_frames, parked_values) =
+                let (address, register_frames, parked_values, pending_go_subs) =
                     self.return_address_stack.pop().unwrap();
                 // EXIT SUB / EXIT FUNCTION inside a FOR loop leaves the loop's register frame behind
                 self.register_stack.truncate(register_frames);
                 // ... and inside a SELECT CASE the value that is being selected on
                 self.value_stack.truncate(parked_values);
+                // ... and a GOSUB that did not RETURN belongs to the call that ends here
+                self.go_sub_address_stack.truncate(pending_go_subs);
                 ctx.opt_next_index = Some(address);
             }
             Instruction::GoSub(address_or_label) => {
                 self.go_sub_address_stack.push(i);
                 ctx.opt_next_index = Some(address_or_label.address());
             }
-            Instruction::Return(opt_address) => match self.go_sub_address_stack.pop() {
+            Instruction::Return(opt_address) => match self.pop_go_sub_address() {
                 Some(address) => {
                     ctx.opt_next_index = Some(match opt_address {
                         Some(address_or_label) => address_or_label.address(),
@@ -589,6 +593,20 @@ impl<TStdlib: Stdlib, TStdIn: Input, TStdOut: Printer, TLpt1: Printer>
             }
         }
         Ok(())
+    }
+
+    /// Takes the address of the most recent GOSUB of the running SUB / FUNCTION call
+    /// (or of the module level code). The addresses of its callers are out of reach.
+    fn pop_go_sub_address(&mut self) -> Option<usize> {
+        let pending_in_callers = match self.return_address_stack.last() {
+            Some((_, _, _, pending_go_subs)) => *pending_go_subs,
+            _ => 0,
+        };
+        if self.go_sub_address_stack.len() > pending_in_callers {
+            self.go_sub_address_stack.pop()
+        } else {
+            None
+        }
     }
 
     /// A failing built-in never reaches the `PopStack` of its call template:
